@@ -25,6 +25,10 @@ type Op struct {
 	Xs    []int  `json:"xs,omitempty"`
 	Spare int    `json:"spare,omitempty"` // new: hidden capacity behind the variadic slice
 	E     int    `json:"e,omitempty"`     // fold: the monoid's empty element
+	// Long/Stride: new with Long generated elements 1+(i*Stride)%97 (sizes around powers of two up to 8193) instead of Xs
+	Long   int  `json:"long,omitempty"`
+	Stride int  `json:"stride,omitempty"`
+	Last   bool `json:"last,omitempty"` // fold: of the newest register
 }
 
 type Scenario struct {
@@ -58,7 +62,29 @@ func genOp(t *rapid.T) Op {
 }
 
 func gen(t *rapid.T) Scenario {
-	return Scenario{Ops: rapid.SliceOfN(rapid.Custom(genOp), 1, 24).Draw(t, "ops")}
+	sc := Scenario{Ops: rapid.SliceOfN(rapid.Custom(genOp), 1, 24).Draw(t, "ops")}
+	if rapid.IntRange(0, 59).Draw(t, "powerOfTwo") == 0 {
+		// a sequence whose length sits at a power of two (block sizes, chunked or parallel folds), folded several times
+		n := rapid.SampledFrom([]int{64, 64, 256, 256, 1024, 1024, 4096, 4096, 8192}).Draw(t, "pow") + rapid.IntRange(-1, 1).Draw(t, "off")
+		at := rapid.IntRange(0, len(sc.Ops)).Draw(t, "at")
+		ins := []Op{{Kind: "new", Long: n, Stride: rapid.IntRange(1, 13).Draw(t, "stride")}}
+		for k := 0; k < 4; k++ {
+			ins = append(ins, Op{Kind: "fold", Last: true, E: rapid.IntRange(0, 9).Draw(t, "e")})
+		}
+		sc.Ops = append(sc.Ops[:at:at], append(ins, sc.Ops[at:]...)...)
+	}
+	return sc
+}
+
+func (op Op) elements() []int {
+	if op.Long <= 0 {
+		return op.Xs
+	}
+	xs := make([]int, op.Long)
+	for i := range xs {
+		xs[i] = 1 + (i*max(op.Stride, 1))%97
+	}
+	return xs
 }
 
 type reg struct {
@@ -108,8 +134,9 @@ func Run(sc Scenario) (msg string) {
 		}
 		switch op.Kind {
 		case "new":
-			m := append([]int{}, op.Xs...)
-			r := reg{l: lt.New(fresh(op.Xs, op.Spare)...), s: st.New(fresh(op.Xs, op.Spare)...), m: m}
+			xs := op.elements()
+			m := append([]int{}, xs...)
+			r := reg{l: lt.New(fresh(xs, op.Spare)...), s: st.New(fresh(xs, op.Spare)...), m: m}
 			if lt.Length(r.l) != len(m) || st.Length(r.s) != len(m) {
 				return fmt.Sprintf("%s: New(%v) has length list=%d slice=%d, want %d", at, m, lt.Length(r.l), st.Length(r.s), len(m))
 			}
@@ -151,6 +178,9 @@ func Run(sc Scenario) (msg string) {
 			}
 		case "fold":
 			src := regs[op.R%len(regs)]
+			if op.Last {
+				src = regs[len(regs)-1]
+			}
 			// non-commutative, non-associative, with an Empty that is not neutral: order and start are observable
 			mi := monoid.FromOp(op.E+1, func(a, b int) int { return (a*31 + b) % 1000003 })
 			want := op.E + 1
@@ -192,7 +222,7 @@ func shape(sc Scenario) (nontrivial bool, cl []string) {
 		}
 		switch op.Kind {
 		case "new":
-			lens = append(lens, len(op.Xs))
+			lens = append(lens, len(op.elements()))
 			if op.Spare > 0 {
 				cl = append(cl, "new-with-spare-capacity")
 			}
